@@ -39,6 +39,8 @@ def scenario_from(bad):
         sc['prior'] = True
     elif case.get('prior') in ('built', 'changed'):
         sc['prior_files'] = scenario_files(case['prior_kinds'], case['prior_classes'], model, 'p')
+        if case.get('headless_above'):
+            sc['headless_above'] = True
     if bad.get('fired'):
         idx, verb, path, what = bad['fired']
         pat = path
@@ -199,8 +201,8 @@ MAX_CONFORMANCE = 6
 
 
 def normalize_trace(ops):
-    """Storage trace -> comparable form: block hashes and block subdirectories are renamed by first appearance, runs of
-    block-subdirectory listings (issued concurrently by list_blocks) are sorted."""
+    """Storage trace -> comparable form: block hashes are renamed by first appearance, block subdirectories are anonymous,
+    a run of block-subdirectory listings (issued concurrently by list_blocks) counts once."""
     hmap, out = {}, []
     for v, p in ops:
         m = re.match(r'^d/([0-9a-f]{3})(?:/([0-9a-f]{128}))?$', p)
@@ -211,15 +213,13 @@ def normalize_trace(ops):
             else:
                 p = 'd/*'
         out.append((v, p))
-    res, run = [], []
+    res = []
     for o in out:
-        if o == ('list_dir', 'd/*'):
-            run.append(o)
+        # the number of block subdirectories depends on the hash values, so a run of listings counts once
+        if o == ('list_dir', 'd/*') and res and res[-1] == o:
             continue
-        res += run
-        run = []
         res.append(o)
-    return res + run
+    return res
 
 
 def trace_conformance(sample, prop):
@@ -259,7 +259,8 @@ def path_role(p):
 
 
 def case_name(c):
-    return '%s/%s/%s%s%s' % (c['kinds'], ''.join(map(str, c['classes'])), c['mode'], '/prior=' + c['prior'] if c.get('prior') else '', '/nested-paths' if c.get('paths') else '')
+    return '%s/%s/%s%s%s%s' % (c['kinds'], ''.join(map(str, c['classes'])), c['mode'], '/prior=' + c['prior'] if c.get('prior') else '',
+                               '/nested-paths' if c.get('paths') else '', '/headless-band-above' if c.get('headless_above') else '')
 
 
 COMMON_ASSUMPTIONS = [
@@ -267,5 +268,5 @@ COMMON_ASSUMPTIONS = [
     'hash = injective function of content provenance (content classes); distinct classes share no bytes',
     'Snappy / JSON are exact inverses; BlockDir::open/list_blocks modelled; tokio spawn runs at once',
     'transport model mirsym/env.py Store with the local backend\'s behaviour for CreateNew (overwrites) plus a write-once monitor',
-    'file sizes <= 3*max_block_size, max_block_size in [1,2^20], small_file_cap in [0,2^21], max_entries_per_hunk in [1,4], all symbolic',
+    'file sizes <= 3*max_block_size, max_block_size in [1,2^25], small_file_cap in [0,2^26], max_entries_per_hunk in [1,4], all symbolic',
 ]
